@@ -35,7 +35,7 @@ PROPS = {
                 preds=["CandidatesExact", "OfferedAccepted"]),
     "C18": dict(families=["helpdoc"], lens={"help", "helpcomplete", "helpof"}, rand=("C18", 2500, 400000), relational=False,
                 preds=["HelpDocComplete (evaluated on the parsed real text)", "HelpDocOf equality", "three paths same text"]),
-    "C19": dict(families=["modes", "wrapper", "complete-eq", "tree", "helpdoc"], lens={"panic", "hang", "rest", "exits"}, fuzz=(16000, 800000), level="exploration",
+    "C19": dict(families=["modes", "wrapper", "complete-eq", "complete", "tree", "helpdoc"], lens={"panic", "hang", "rest", "exits"}, fuzz=(16000, 800000), level="exploration",
                 preds=["NotStuck", "VariantDecreases (action property)", "ErrImpliesNilRest"]),
     "C20": dict(families=["order", "complete", "complete-eq", "shadow"], lens={"nondet", "err", "derr", "comps", "warn", "aliased"}, rand=[("C20", 4000, 300000), ("C20c", 2000, 200000)],
                 repeat=6, twice=True, preds=["FixedRule"]),
